@@ -311,6 +311,30 @@ def r4(ctx, rep):
               "the error a binding user sees for the same program differs between the one-shot and the staged path")
 
 
+def r5(ctx, rep):
+    rep.rule("C15.R5", "the JSON reader parses a float back to the f64 that was written", floor=2)
+    import json
+    import os
+    import subprocess
+    # which reachable fields are floats (driver: fields reachable from the two JSON roots)
+    floats = sorted({(t["owner_id"], t["variant"]) for crate in ("prqlc_parser", "prqlc") for t in ctx.mir[crate].get("type_reach", []) if t["ty"] in ("f64", "f32")})
+    rep.check(bool(floats), "float-fields", f"expected Literal::Float among the fields reachable from ModuleDef / RelationalQuery, found {floats}")
+    env = dict(os.environ, CARGO_NET_OFFLINE="true")
+    r = subprocess.run(["cargo", "metadata", "--offline", "--format-version", "1", "--no-deps"], cwd=ctx.repo, env=env, stdout=subprocess.PIPE, stderr=subprocess.PIPE, text=True)
+    if r.returncode != 0:
+        rep.bad("manifest", "cargo metadata failed on the workspace manifest: " + r.stderr[-300:])
+        return
+    meta = json.loads(r.stdout)
+    pk = [p for p in meta["packages"] if p["name"] == "prqlc"]
+    dep = [d for p in pk for d in p["dependencies"] if d["name"] == "serde_json" and d.get("kind") in (None, "normal")]
+    feats = sorted({f for d in dep for f in d.get("features", [])})
+    # serde_json's default number parser is the fast, inexact one: documented to be up to 1 ULP off ("float_roundtrip: use sufficient precision when parsing fixed
+    # precision floats from JSON to ensure that they maintain accuracy when round-tripped through JSON")
+    rep.check(bool(dep) and (not floats or "float_roundtrip" in feats), "serde_json:float_roundtrip", f"the compiler crate depends on serde_json with features {feats}; {len(floats)} float field(s) {floats} "
+              "are written to the PL / RQ documents. Without `float_roundtrip` serde_json reads `1000000000.0126345` back as 1000000000.0126344: the staged pipeline then compiles a different "
+              "literal than the one-shot one", file="Cargo.toml", line=1, fn="workspace.dependencies.serde_json")
+
+
 def run(ctx, rep):
-    for r in (r1, r2, r3, r4):
+    for r in (r1, r2, r3, r4, r5):
         rep.guard(r, ctx)
